@@ -62,10 +62,12 @@ def judge(PP, p, text=None, nesting=None):
         o = hplapi.outcome(PP.parse, text)
     else:
         hplapi.NESTING[0] = nesting
+        hplapi.MIN_TIME[0] = (None, 0.125, 0.0, 2.5)[len(text or A.render_prop(p)) % 4]
         try:
             o = hplapi.outcome(hplapi.build_property, p)
         finally:
             hplapi.NESTING[0] = 'right'
+            hplapi.MIN_TIME[0] = None
     if o[0] != 'ok':
         return ('rejected', hplapi.exc_class(o), 0, None)
     hp = o[1]
@@ -75,6 +77,7 @@ def judge(PP, p, text=None, nesting=None):
         return ('canonical-raises', {'error': hplapi.exc_class(oc), 'message': str(oc[1])[:200]}, 0, hp)
     res = oc[1]
     exp = expected_outputs(p)
+    compare.EXPECTED_MIN_TIME[0] = hp.pattern.min_time if nesting is not None else None
     if not isinstance(res, list):
         return ('not-a-list', {'result': type(res).__name__}, 0, hp)
     if exp is None:
@@ -104,6 +107,7 @@ def judge(PP, p, text=None, nesting=None):
         if again[0] != 'ok' or len(again[1]) != 1 or again[1][0] is not r:
             return ('not-idempotent', {'index': i, 'again': hplapi.exc_class(again) if again[0] != 'ok' else len(again[1])},
                     len(res), hp)
+    compare.EXPECTED_MIN_TIME[0] = None
     if monitors.snapshot(hp) != snap_in:
         return ('input-mutated', {}, len(res), hp)
     return (None, {'outputs': len(res)}, len(res), hp)
